@@ -56,6 +56,12 @@ func (p *Paragraph) Set(key, value string) {
 }
 
 func (p *Paragraph) WriteTo(out io.Writer) error {
+	return p.writeTo(out, nil)
+}
+
+/* Fields listed in nextLine have all of their lines written as continuation
+ * lines, with nothing next to the key (`multiline:"true"`). */
+func (p *Paragraph) writeTo(out io.Writer, nextLine map[string]bool) error {
 	for _, key := range p.Order {
 		/* A single trailing newline only ends the last line of the value,
 		 * it does not start another (empty) line. */
@@ -74,6 +80,15 @@ func (p *Paragraph) WriteTo(out io.Writer) error {
 			 * value is read from continuation lines only, so that's how
 			 * it's written. */
 			field = key + ":"
+			rest = lines
+		} else if len(lines) > 1 && strings.TrimSpace(lines[0]) == "" {
+			/* Nothing next to the key is not a line of its own when
+			 * continuation lines follow, so an empty first line has to be
+			 * written as a continuation line (" .") as well. */
+			field = key + ":"
+			rest = lines
+		} else if nextLine[key] && strings.TrimSpace(lines[0]) != "" {
+			field = key + ": "
 			rest = lines
 		}
 		for _, line := range rest {
